@@ -175,6 +175,7 @@ theorem skipValue_ser (o : ObjE) (rest : Bytes) (hwf : o.wf) (hk : o.kind ≠ .o
         (16 : UInt8) = 9 ∨ (16 : UInt8) = 13 ∨ (16 : UInt8) = 16) by decide, if_false, if_true]
     exact skipString_enc w rest hwf.1
   | stream s => exact absurd rfl hk
+  | module2 id ops => exact absurd rfl hk
   | raw t b => exact absurd rfl hk
 
 def otOf (o : ObjE) : OType :=
